@@ -7,6 +7,10 @@
    adjacent numbers in order; every message is processed exactly once; end_of_batch is false on the first and true on the last
    message of a batch; the calls report success. */
 #include "vf_h.h"
+/* props/C25.py passes -Dmalloc=vf_static_alloc: CBMC's built-in malloc writes a shared pointer (leak bookkeeping), which its thread
+   encoding rejects; the only allocation in reach is the exception object of the (unreachable, asserted) pipelined branch of write(Message&) */
+static uint64_t vf_exc_store[3][16]; static __CPROVER_thread_local uint32_t vf_alloc_n;
+void *vf_static_alloc(size_t n) { return vf_exc_store[vf_alloc_n++ % 3]; }
 #include "c25.c"
 #ifndef MODE0
 #define MODE0 0           /* per thread: 0 = write(Message*, false), 1 = write(Message&), 2 = write_batch({a,b}, false), 9 = no thread */
@@ -20,15 +24,19 @@
 #define NMSG 6
 typedef struct S_class_2eFIX8_3a_3aMessage MSG;
 static struct S_class_2eFIX8_3a_3aFIXWriter the_w;
-static MSG msgs[NMSG];
-static struct VEC_T vecs[3];                 /* VEC_T = generated struct of std::vector<Message*> (passed by props/C25.py) */
+/* messages are opaque to the code under test except for the end-of-batch flag: raw integer storage (an object with pointer-typed members
+   cannot be written at a symbolic offset under CBMC's thread encoding) */
+#define MSGWORDS 64
+static uint64_t msg_raw[NMSG][MSGWORDS];
+#define MSGP(i) ((MSG*)msg_raw[i])
+static struct VEC_T vecs[3]; static MSG *vstore[3][2];   /* VEC_T = generated struct of std::vector<Message*> (passed by props/C25.py) */
 /* witness state */
 static uint32_t counter; static uint32_t taken[NMSG]; static uint8_t nproc[NMSG]; static uint8_t in_cs, overlap;
 static uint8_t done[3]; static uint8_t ret_ok[3];
 uint32_t cx_taken[NMSG]; uint8_t cx_nproc[NMSG]; uint8_t cx_overlap; uint8_t cx_mode[3] = { MODE0, MODE1, MODE2 };
 uint8_t st_send_process(void *sess, void *m)
 {
-  uint32_t id = (uint32_t)((MSG*)m - msgs);
+  uint32_t id = (uint32_t)(((uint64_t*)m - &msg_raw[0][0]) / MSGWORDS);
   if (in_cs) overlap = 1;
   in_cs = 1;
   uint32_t t = counter;                      /* read ...                                   */
@@ -37,24 +45,22 @@ uint8_t st_send_process(void *sess, void *m)
   in_cs = 0;
   return 1;
 }
-uint8_t st_is_shutdown(void *s) { return 0; }
-uint8_t st_wq_try_push(void *q, void *m) { __CPROVER_assert(0, "C25: the queue is not used in the threaded model"); return 1; }
-uint8_t st_wq_pop(void *q, void *out) { __CPROVER_assert(0, "C25: the queue is not used in the threaded model"); return 0; }
-void st_nodelete(void *d, void *m) { }
-void st_exc_txt(void *e, void *txt, uint8_t force) { }
+uint8_t st_queue_push(void *q, void *d) { __CPROVER_assert(0, "C25: the queue is not used in the threaded process model"); return 1; }
+void st_exc_txt(void *e, void *txt, uint8_t force) { __CPROVER_assert(0, "C25: write(Message&) does not throw in the threaded process model"); }
 static void worker(int i, int mode)
 {
   uint8_t ok = 1;
-  if (mode == 0) ok = vf_w_write(&the_w, &msgs[2 * i], 0) & 1;
-  else if (mode == 1) ok = vf_w_write_ref(&the_w, &msgs[2 * i]) & 1;
-  else if (mode == 2) ok = (vf_w_write_batch(&the_w, &vecs[i], 0) == 2);
+  if (mode == 0) ok = vf_w_write(&the_w, MSGP(2 * i), 0) & 1;
+  else if (mode == 1) ok = vf_w_write_ref(&the_w, MSGP(2 * i)) & 1;
+  else if (mode == 2) ok = (vf_w_write_batch2(&the_w, &vecs[i], 0) == 2);
   ret_ok[i] = ok;
   done[i] = 1;
 }
 int main(void)
 {
+  __CPROVER_assert(sizeof(MSG) <= sizeof msg_raw[0], "raw message storage large enough");
   vf_w_init(&the_w, 0 /* pm_thread */);
-  for (int i = 0; i < 3; i++) vf_vec_init2(&vecs[i], &msgs[2 * i], &msgs[2 * i + 1]);
+  for (int i = 0; i < 3; i++) vf_vec_init2(&vecs[i], vstore[i], MSGP(2 * i), MSGP(2 * i + 1));
   const int nmsg[3] = { MODE0 == 9 ? 0 : MODE0 == 2 ? 2 : 1, MODE1 == 9 ? 0 : MODE1 == 2 ? 2 : 1, MODE2 == 9 ? 0 : MODE2 == 2 ? 2 : 1 };
 #if MODE0 != 9
   __CPROVER_ASYNC_1: worker(0, MODE0);
@@ -87,7 +93,7 @@ int main(void)
   }
   for (int i = 0; i < 3; i++) if (nmsg[i] == 2) {
     VF_ASSERT(taken[2 * i + 1] == taken[2 * i] + 1, "C25: the messages of a batch take adjacent numbers in order");
-    VF_ASSERT(!(vf_msg_eob(&msgs[2 * i]) & 1) && (vf_msg_eob(&msgs[2 * i + 1]) & 1), "C25: end-of-batch is set on the last message of a batch only");
+    VF_ASSERT(!(vf_msg_eob(MSGP(2 * i)) & 1) && (vf_msg_eob(MSGP(2 * i + 1)) & 1), "C25: end-of-batch is set on the last message of a batch only");
   }
   VF_ASSERT(ret_ok[0] && ret_ok[1] && ret_ok[2], "C25: the calls report success");
   VF_ASSERT(!__vf_exc_pending, "C25: no exception");
